@@ -159,7 +159,7 @@ def split_unit(name: str):
     if suffix:
         for part in suffix.split(","):
             k, _, v = part.partition("=")
-            inst[k] = int(v)
+            inst[k] = int(v) if v.lstrip("-").isdigit() else v     # ints are constants, names are type parameters
     return base, inst
 
 
@@ -167,6 +167,20 @@ def unit_name(base: str, inst: dict) -> str:
     if not inst:
         return base
     return base + "@" + ",".join(f"{k}={v}" for k, v in sorted(inst.items()))
+
+
+def active_clauses(clauses, inst: dict):
+    """A clause may be prefixed '@NAME=value: ' to apply to one instance only."""
+    out = []
+    for c in clauses:
+        if c.startswith("@"):
+            head, _, body = c.partition(":")
+            k, _, v = head[1:].partition("=")
+            if str(inst.get(k.strip())) != v.strip():
+                continue
+            c = body.strip()
+        out.append(c)
+    return out
 
 
 REGISTRY = Registry()
